@@ -196,7 +196,7 @@ def choose_variant(P, rnd):
     """one presentation of the problem to the floating-point code: carrier x dtype x container x designation of the blocks"""
     k = P["k"]
     v = {"carrier": rnd.choice(["dense", "sparse", "spmatrix", "mixed"]),
-         "designation": rnd.choice(["indices", "indices", "vectors", "blocked", "rotated", "blockseries"]),
+         "designation": rnd.choice(["indices", "indices", "vectors", "blocked", "rotated", "blockseries", "blockseries-blocked"]),
          "container": "dict", "int_h0": False}
     keys = list(P["terms"])
     if all(sum(n) <= 1 for n in keys) and rnd.random() < 0.5: v["container"] = "list"
@@ -211,8 +211,10 @@ def choose_variant(P, rnd):
         v["np_seed"] = rnd.randrange(2**31)
     if P.get("lab") is not None and rnd.random() < 0.7:
         v["designation"] = "biorthogonal"; v["carrier"] = "dense"; v["int_h0"] = False
-    if v["designation"] == "blockseries": v["container"] = "dict"
+    if v["designation"] in ("blockseries", "blockseries-blocked"): v["container"] = "dict"
     if v["designation"] in ("indices", "blockseries") and rnd.random() < 0.5: v["interleave"] = True
+    # other units: the whole Hamiltonian times a power of two (exact in floating point), the absolute tolerance given in the same units
+    v["scale_exp"] = rnd.choice([0, 0, 0, 0, 0, -70, -30, 40]) if not v["int_h0"] else 0
     return v
 
 def snap(x):
@@ -236,6 +238,8 @@ def run_impl_numeric(P, requests, v, rnd):
     for n, m in P["terms"].items():
         a = to_float(m); mats[n] = a if cplx else a.real.copy()
     if v["int_h0"]: mats[zero_n] = np.rint(mats[zero_n].real).astype(int)
+    unit = 2.0 ** v.get("scale_exp", 0)
+    if unit != 1.0: mats = {n: m * unit for n, m in mats.items()}
     snapshot = None
     R = np.eye(d, dtype=complex)          # rotation inside degenerate levels (canonical coordinates)
     kw = {}
@@ -254,7 +258,7 @@ def run_impl_numeric(P, requests, v, rnd):
         kw["subspace_eigenvectors"] = [W[:, off[b]:off[b + 1]] for b in range(N)]
     if v["designation"] == "biorthogonal":
         Sm = to_float(P["lab"]["S"]); Sim = to_float(P["lab"]["Sinv"])
-        mats = {n: to_float(m) for n, m in P["lab"]["terms"].items()}
+        mats = {n: to_float(m) * unit for n, m in P["lab"]["terms"].items()}
         kw["subspace_eigenvectors"] = [(Sm[:, off[b]:off[b + 1]], Sim.conj().T[:, off[b]:off[b + 1]]) for b in range(N)]
     idx_labels = P["blocks"]
     if v["designation"] in ("indices", "blockseries") and v.get("interleave"):
@@ -265,6 +269,17 @@ def run_impl_numeric(P, requests, v, rnd):
         return a if c == "dense" else (sparse.csr_array(a) if c == "sparse" else sparse.csr_matrix(a))
     if v["designation"] == "blocked":
         H = {n: [[conv(m[off[i]:off[i + 1], off[j]:off[j + 1]]) for j in range(N)] for i in range(N)] for n, m in mats.items()}
+    elif v["designation"] == "blockseries-blocked":
+        # a user-made series of pre-separated blocks: the values reach the algorithm as they are (legacy sparse matrices included)
+        data = {}
+        for n, m in mats.items():
+            for i in range(N):
+                for j in range(N):
+                    blk = m[off[i]:off[i + 1], off[j]:off[j + 1]]
+                    if np.any(blk != 0) or (i == j and not any(n)): data[(i, j) + tuple(n)] = conv(blk)
+        H = BlockSeries(data=data, shape=(N, N), n_infinite=k)
+        if os.environ.get("BD_DEBUG"):
+            import pickle; pickle.dump({"data": data, "fd": P["fd_py"], "hermitian": P["hermitian"], "N": N, "k": k}, open(os.environ["BD_DEBUG"], "wb"))
     else:
         H = {n: conv(m) for n, m in mats.items()}
     if v["designation"] in ("indices", "blockseries"): kw["subspace_indices"] = idx_labels
@@ -282,6 +297,7 @@ def run_impl_numeric(P, requests, v, rnd):
     is_series = isinstance(H, BlockSeries)
     before = snap(H._data if is_series else H); vec_before = snap(kw.get("subspace_eigenvectors"))
     fd_before = snap(P["fd_py"]) if isinstance(P["fd_py"], dict) else None
+    if unit != 1.0: kw["atol"] = 1e-12 * unit
     Ht, U, Ud = block_diagonalize(H, fully_diagonalize=P["fd_py"], hermitian=P["hermitian"], **kw)
     S = {"H_tilde": Ht, "U": U, "U†": Ud}; out = []; handed = []
     for (name, i, j, n) in requests:
@@ -295,6 +311,7 @@ def run_impl_numeric(P, requests, v, rnd):
         if x is one: x = np.eye(sizes[i])
         if hasattr(x, "toarray"): x = x.toarray()
         full[off[i]:off[i] + sizes[i], off[j]:off[j] + sizes[j]] = np.asarray(x, dtype=complex)
+        if name == "H_tilde" and unit != 1.0: full = full / unit
         out.append(("val", R @ full @ R.conj().T))         # back to the canonical basis
     # C10, mutation clause: the caller's containers and arrays, and every value already handed out, are unchanged
     if not is_series and snap(H) != before: out.append(("mutated", "the Hamiltonian container or its arrays"))
@@ -477,6 +494,7 @@ def main(seed, ncases, driver, out, mode="all"):
             for kk in ("carrier", "designation", "container"): num_stats[kk + "=" + variant[kk]] = num_stats.get(kk + "=" + variant[kk], 0) + 1
             if variant["int_h0"]: num_stats["int_h0"] = num_stats.get("int_h0", 0) + 1
             if variant.get("level_rotation"): num_stats["level_rotation"] = num_stats.get("level_rotation", 0) + 1
+            if variant.get("scale_exp"): num_stats["units=2^%d" % variant["scale_exp"]] = num_stats.get("units=2^%d" % variant["scale_exp"], 0) + 1
             try:
                 num = run_impl_numeric(P, reqs, variant, rnd)
             except Exception as e:
